@@ -1,5 +1,18 @@
 import Driver.Common
 import Driver.C18
+import Driver.Life
+import Driver.C09
+import Driver.C08
+import Driver.Registry
+import Driver.Pg
+import Driver.C16
+import Driver.C20
+import Driver.C12
+import Driver.C05
+import Driver.Admission
+import Driver.ExitRace
+import Driver.C19
+import Driver.C17
 import Driver.LeakyBucket
 import Driver.Factory
 
@@ -10,6 +23,22 @@ def main (args : List String) : IO UInt32 := do
     let impl ← Driver.readLines implPath
     let t ← match model with
       | "c18" => Driver.C18.run ops impl
+      | "life-c01" => Driver.LifeDrv.run .c01 ops impl
+      | "life-c03" => Driver.LifeDrv.run .c03 ops impl
+      | "life-c04" => Driver.LifeDrv.run .c04 ops impl
+      | "life-residue" => Driver.LifeDrv.run .residue ops impl
+      | "c09" => Driver.C09.run ops impl
+      | "c08" => Driver.C08.run ops impl
+      | "registry" => Driver.Registry.run ops impl
+      | "pg" => Driver.Pg.run ops impl
+      | "c16" => Driver.C16.run ops impl
+      | "c20" => Driver.C20.run ops impl
+      | "c12" => Driver.C12.run ops impl
+      | "c05" => Driver.C05.run ops impl
+      | "admission" => Driver.Admission.run ops impl
+      | "exitrace" => Driver.ExitRace.run ops impl
+      | "c19" => Driver.C19.run ops impl
+      | "c17" => Driver.C17.run ops impl
       | "leakybucket" => Driver.LeakyBucket.run ops impl
       | "factory" => Driver.Factory.run "" ops impl
       | "factory-c13" => Driver.Factory.run "c13-" ops impl
